@@ -203,8 +203,9 @@ def upload_buffer_oracle(obs):
     # max_in_memory_upload_chunks slots from the moment it is handed to the stage until it has finished
     mem_tids = {}
     for x in obs.xfers:
-        if x.label in stream_labels:
-            mem_tids[x.idx] = ('UploadPartTask', 'PutObjectTask') if x.spec.get('src') == 'nonseekable' else ('UploadPartTask',)
+        if x.label in stream_labels and x.future is not None:
+            # (the manager's own id of the transfer: submission order need not be the order of the spec)
+            mem_tids[x.future.meta.transfer_id] = ('UploadPartTask', 'PutObjectTask') if x.spec.get('src') == 'nonseekable' else ('UploadPartTask',)
     out_now = 0
     stats['max_in_memory_body_tasks'] = 0
     flagged = False
